@@ -6,7 +6,7 @@
    the octagon ∩ image ∩ mask percentile and its checker. *)
 From Coq Require Import ZArith List Bool Sorted Permutation.
 From Centro Require Import Model.Median Spec.MedianSpec Proofs.MedianCheck Proofs.MedianHist
-  Proofs.MedianGeom Proofs.MedianRank Proofs.MedianRefute Proofs.MedianSlide Proofs.MedianStep.
+  Proofs.MedianGeom Proofs.MedianRank Proofs.MedianRefute Proofs.MedianSlide Proofs.MedianStep Proofs.MedianInv Proofs.MedianWrap.
 From Centro Require Model.VecC18 Model.RankC18.
 Import ListNotations.
 Open Scope Z_scope.
@@ -85,29 +85,15 @@ Theorem C07_geom_octagon : forall radius, 1 <= radius ->
 Proof. exact geom_octagon. Qed.
 Print Assumptions C07_geom_octagon.
 
-(* ---------------------------------------------------------------- sliding invariant (Partial, per layer)
+(* ---------------------------------------------------------------- sliding invariant (FULL)
 
-   Full statement, NOT proved as one theorem:
-     forall data mask radius percent, rect rows cols data -> rect rows cols mask -> 2 <= radius ->
-       0 <= percent <= 100 -> (all data in 0..255) -> (window area < 65536) ->
-       MedianSpec data mask radius percent (kernel AsIs data mask radius percent).
-   Proved, for every image / mask / geometry / position (below):
-     layer A  C07_hist_col_step, C07_hist_row_steps: exact histogram identities on the real image —
-              one column step of the window, one row step of each of the five pieces;
-     layer B  C07_update_loc_spec: update_current_location re-establishes "slot field = histogram of
-              its piece" from the previous row's fields and touches nothing else (row step);
-              C07_col_step_spec: accumulate + deaccumulate turn "accumulator (coarse bins, count) =
-              window (row, c-1)" into "= window (row, c)", uint16/uint32 wrap-around included,
-              the column guards shown to skip only empty pieces (column step);
-     on top   C07_find_median_model_rank (rank selection), C07_asis_is_fixed (radius >= 2: the code
-              as written is the Fixed variant), C07_fixed_slots_distinct / C07_index_in_buffer /
-              C07_index_follow (buffer indices).
-   Missing lemmas, named: [kernel_inv] — the induction over the two loops of c_median_filter that
-   threads C07_update_loc_spec / C07_col_step_spec through fold_left (slot-distinctness within a
-   row, row_init clearing the two entering slots, first row on the zero buffer); and
-   [update_fine_spec] — the lazily replayed fine block equals the window's fine bins.
-   Stop-gap: the Finite sweeps C07_sliding_fixed_finite, C07_sliding_asis_finite2 and the exact
-   differential testing of the line-level model. *)
+   C07_sliding_invariant (below, after its layers): for every image, mask, radius >= 1, percent with
+   uint8 unmasked pixels and fewer than 65536 unmasked pixels per window, the Fixed kernel's output
+   satisfies MedianSpec; C07_sliding_invariant_asis: the same for the code as written, radius >= 2.
+   Layers, each its own theorem: geometry (C07_sliding_invariant_partial = the identity oct(c) =
+   oct(c-1) ∪ lead ∖ trail, name kept from round 1), exact histograms (C07_hist_col_step,
+   C07_hist_row_steps), single operations (C07_update_loc_spec, C07_col_step_spec,
+   C07_update_fine_spec), rank selection (C07_find_median_spec), loops (C07_kernel_inv). *)
 
 (* the geometry identity oct(c) = oct(c-1) ∪ lead(c) ∖ trail(c), as an exact multiset identity *)
 Theorem C07_sliding_invariant_partial : forall R a2 dx dy, 1 <= a2 -> a2 < R ->
@@ -261,6 +247,68 @@ Theorem C07_update_loc_spec : forall e : env, 1 <= e_a2 e -> e_a2 e < e_R e -> D
 Proof. exact update_loc_spec. Qed.
 Print Assumptions C07_update_loc_spec.
 
+(* ---------------------------------------------------------------- layer C: lazy fine update, rank, loops *)
+
+(* update_fine: the lazily replayed fine block equals the window's fine bins, nothing else moves *)
+Theorem C07_update_fine_spec : forall e : env, 1 <= e_a2 e -> e_a2 e < e_R e ->
+  e_SL e = e_cols e + 2 * e_R e + 1 -> 0 <= e_cols e ->
+  (forall c row : Z, hN e (Soct e c row) < M16) ->
+  forall (s : st) (row c f : Z),
+  s_row s = row -> s_col s = c -> Slots e s row c -> c <= e_cols e + e_R e - 1 -> FineInv e s row c -> 0 <= f < 16 ->
+  let s' := update_fine e s f in
+  FineInv e s' row c /\ BlockIs s' f (hF e (Soct e c row)) /\
+  s_cols s' = s_cols s /\ coarse (s_acc s') = coarse (s_acc s) /\ s_accn s' = s_accn s /\ s_row s' = row /\ s_col s' = c.
+Proof. exact update_fine_spec. Qed.
+Print Assumptions C07_update_fine_spec.
+
+(* find_median in a state satisfying the invariant returns the window's percentile and keeps the invariant *)
+Theorem C07_find_median_spec : forall e : env, 1 <= e_a2 e -> e_a2 e < e_R e -> Data8 e ->
+  e_SL e = e_cols e + 2 * e_R e + 1 -> 0 <= e_cols e ->
+  (forall c row : Z, hN e (Soct e c row) < M16) -> 0 <= e_percent e <= 100 ->
+  forall (s : st) (row c : Z),
+  s_row s = row -> s_col s = c -> c <= e_cols e + e_R e - 1 ->
+  Slots e s row c -> AccInv e s row c -> FineInv e s row c ->
+  let s' := fst (find_median e s) in
+  let v := snd (find_median e s) in
+  Slots e s' row c /\ AccInv e s' row c /\ FineInv e s' row c /\ s_row s' = row /\ s_col s' = c /\
+  (ewin e row c <> nil ->
+   RankOf (ewin e row c) (rank_pos (Z.of_nat (length (ewin e row c))) (e_percent e)) v).
+Proof. exact find_median_spec. Qed.
+Print Assumptions C07_find_median_spec.
+
+(* kernel_inv: the two loops of c_median_filter (row_init clearing the entering slots, the zero
+   buffer of the first row, slot distinctness within a row) — every output row is good *)
+Theorem C07_kernel_inv : forall e : env, 1 <= e_a2 e -> e_a2 e < e_R e -> Data8 e ->
+  e_sweep e = e_R e -> e_SL e = e_cols e + 2 * e_R e + 1 -> 0 <= e_cols e -> 0 <= e_rows e ->
+  (forall c row : Z, hN e (Soct e c row) < M16) -> 0 <= e_percent e <= 100 ->
+  let out := rev (snd (fold_left (do_row e) (zrange (- e_sweep e) (e_rows e)) (st0 e, nil))) in
+  Z.of_nat (length out) = e_rows e /\
+  (forall i : Z, 0 <= i < e_rows e -> RowGood e i (nth (Z.to_nat i) out nil)).
+Proof. exact kernel_rows. Qed.
+Print Assumptions C07_kernel_inv.
+
+(* FULL: the kernel model's output is the masked octagonal percentile *)
+Theorem C07_sliding_invariant : forall data mask radius percent,
+  1 <= radius -> 0 <= percent <= 100 -> Masked8 data mask -> WinSmall mask (img_rows data) (img_cols data) radius ->
+  let out := kernel Fixed data mask radius percent in
+  MedianSpec data mask radius percent out /\
+  Z.of_nat (length out) = img_rows data /\ Forall (fun r => Z.of_nat (length r) = img_cols data) out.
+Proof. exact sliding_invariant. Qed.
+Print Assumptions C07_sliding_invariant.
+
+(* ... and so is the output of the code as written for every radius >= 2 *)
+Theorem C07_sliding_invariant_asis : forall data mask radius percent,
+  2 <= radius -> 0 <= percent <= 100 -> Masked8 data mask -> WinSmall mask (img_rows data) (img_cols data) radius ->
+  MedianSpec data mask radius percent (kernel AsIs data mask radius percent).
+Proof. exact sliding_invariant_asis. Qed.
+Print Assumptions C07_sliding_invariant_asis.
+
+(* the window-size premise holds for every image with fewer than 65536 pixels *)
+Theorem C07_WinSmall_of_small_image : forall mask rows cols radius,
+  0 <= rows -> 0 <= cols -> rows * cols < 65536 -> WinSmall mask rows cols radius.
+Proof. exact WinSmall_of_small_image. Qed.
+Print Assumptions C07_WinSmall_of_small_image.
+
 (* for radius >= 2 the code as written is the Fixed variant *)
 Theorem C07_asis_is_fixed : forall data mask radius percent, 2 <= radius ->
   kernel AsIs data mask radius percent = kernel Fixed data mask radius percent.
@@ -338,6 +386,37 @@ Theorem C07_merge_transport : forall (f : Z -> Z) (l : list Z) (r v' : Z),
   RankOf (map f l) r v' -> exists x, In x l /\ f x = v'.
 Proof. exact merge_transport. Qed.
 Print Assumptions C07_merge_transport.
+
+(* ---------------------------------------------------------------- median_filter_model_correct (FULL)
+
+   The property's statement for the model of filter.median_filter that the correspondence ties to
+   the code (AsIs kernel): every rectangular image and mask, radius >= 2, percent 0..100, fewer than
+   65536 unmasked pixels per window, at most 255 distinct masked values, any dtype class (intlike or
+   not), whichever path the wrapper takes (all-masked shortcut, direct, rank_order): the returned
+   array is the exact masked octagonal percentile of the ORIGINAL values. *)
+Theorem C07_median_filter_model_correct : forall intlike orders rows cols data mask radius percent b o,
+  0 < rows -> rect rows cols data -> rect rows cols mask -> 2 <= radius -> 0 <= percent <= 100 ->
+  WinSmall mask rows cols radius ->
+  (length (sort_u (masked_vals data mask)) <= 255)%nat ->
+  wrapper AsIs intlike orders data mask radius percent = WOut b o ->
+  MedianSpec data mask radius percent o.
+Proof. exact median_filter_model_correct. Qed.
+Print Assumptions C07_median_filter_model_correct.
+
+(* More than 255 distinct values: the output is the translation of the EXACT statistic of the merged
+   level image L; L and the table are those of C18's proven model of rank_order(data[mask], 255)
+   (C18_rank_order_bins_correct: monotone merge to <= 255 levels, table entries are input values). *)
+Theorem C07_median_filter_model_merged : forall intlike orders data mask radius percent o,
+  (255 < length (sort_u (masked_vals data mask)))%nat ->
+  wrapper AsIs intlike orders data mask radius percent = WOut true o ->
+  2 <= radius -> 0 <= percent <= 100 ->
+  exists r tr, let L := fill_img mask (map Z.of_nat r) in
+    RankC18.rank_order_bins_with (RankC18.replay_oracle orders) (VecC18.argsort (masked_vals data mask))
+      (masked_vals data mask) 255 = Some (r, tr) /\
+    o = map (map (fun x => nth (Z.to_nat x) tr 0)) (kernel AsIs L mask radius percent) /\
+    (Masked8 L mask -> WinSmall mask (img_rows L) (img_cols L) radius -> MedianSpec L mask radius percent (kernel AsIs L mask radius percent)).
+Proof. exact median_filter_model_merged. Qed.
+Print Assumptions C07_median_filter_model_merged.
 
 (* ---------------------------------------------------------------- F2 *)
 
